@@ -615,3 +615,22 @@ for _p, _only in (('C04', [r'AdmissionPolicy::delete$']), ('C05', [r'AdmissionPo
         PROPS[_p]['verus_only']['policy'] = PROPS[_p]['verus_only']['policy'] + _only
 PROPS['C15']['verus_only']['pool'] = PROPS['C15']['verus_only']['pool'] + [r'Buffer::new$']
 
+
+# floors refreshed from the final run on the pinned tree (obligations + bounded checks + region covers of the quick tier; the thorough tier has at least as many)
+PROPS['C01']['floor'] = {'quick': 34, 'thorough': 34}
+PROPS['C02']['floor'] = {'quick': 24, 'thorough': 24}
+PROPS['C03']['floor'] = {'quick': 22, 'thorough': 22}
+PROPS['C04']['floor'] = {'quick': 16, 'thorough': 16}
+PROPS['C05']['floor'] = {'quick': 35, 'thorough': 35}
+PROPS['C06']['floor'] = {'quick': 32, 'thorough': 32}
+PROPS['C07']['floor'] = {'quick': 17, 'thorough': 17}
+PROPS['C08']['floor'] = {'quick': 19, 'thorough': 19}
+PROPS['C09']['floor'] = {'quick': 27, 'thorough': 27}
+PROPS['C10']['floor'] = {'quick': 32, 'thorough': 32}
+PROPS['C11']['floor'] = {'quick': 12, 'thorough': 12}
+PROPS['C12']['floor'] = {'quick': 12, 'thorough': 12}
+PROPS['C13']['floor'] = {'quick': 22, 'thorough': 22}
+PROPS['C14']['floor'] = {'quick': 41, 'thorough': 41}
+PROPS['C15']['floor'] = {'quick': 18, 'thorough': 18}
+PROPS['C16']['floor'] = {'quick': 33, 'thorough': 33}
+PROPS['C17']['floor'] = {'quick': 173, 'thorough': 173}
